@@ -67,6 +67,8 @@ Acts(S) ==
                 s \in Sessions, t \in live, w \in {"read", "recv"}, n \in 0..(MaxSeq + 1)}
       delmsg == {[a |-> "DelMsg", s |-> s, t |-> t, ranges |-> rg, hard |-> h, chan |-> FALSE] :
                    s \in Sessions, t \in {x \in live : S.topics[x].delId < MaxDel}, rg \in DelRanges, h \in BOOLEAN}
+      conn == {[a |-> "Disconnect", s |-> s] : s \in {x \in Sessions : S.sess[x].live /\ x \notin RootSessions}}
+              \cup {[a |-> "Connect", s |-> s] : s \in {x \in Sessions : ~S.sess[x].live}}
       reload == {[a |-> "Reload", t |-> t] : t \in {x \in live : S.cache[x].loaded}}
       getdata == {[a |-> "Get", s |-> s, t |-> t, what |-> "data", since |-> q[1], before |-> q[2], limit |-> q[3], chan |-> FALSE] :
                     s \in Sessions, t \in live, q \in {<<0, 0, 0>>, <<2, 0, 0>>, <<0, 3, 0>>, <<2, 4, 0>>, <<3, 2, 0>>, <<0, 0, 2>>, <<1, 9, 1>>}}
@@ -85,13 +87,13 @@ Acts(S) ==
      \* requests that need attachment are drawn for attached sessions (plus one detached representative: the refusal path)
      \cup (IF "DelMsg" \in Kinds THEN {x \in delmsg : x.t \in M(S.sess[x.s].subs) \/ (x.s = SessOrder[Len(SessOrder)] /\ x.ranges = << <<1, 0>> >>)} ELSE {})
      \cup (IF "GetData" \in Kinds THEN {x \in getdata : x.t \in M(S.sess[x.s].subs) \/ (x.s = SessOrder[Len(SessOrder)] /\ x.since = 0 /\ x.before = 0 /\ x.limit = 0)} ELSE {})
-     \cup (IF "GetDel" \in Kinds THEN {x \in getdel : x.t \in M(S.sess[x.s].subs) \/ (x.s = SessOrder[Len(SessOrder)] /\ x.since = 0 /\ x.before = 0)} ELSE {}) \cup (IF "Unload" \in Kinds THEN unload ELSE {}) \cup (IF "Reload" \in Kinds THEN reload ELSE {})
+     \cup (IF "GetDel" \in Kinds THEN {x \in getdel : x.t \in M(S.sess[x.s].subs) \/ (x.s = SessOrder[Len(SessOrder)] /\ x.since = 0 /\ x.before = 0)} ELSE {}) \cup (IF "Unload" \in Kinds THEN unload ELSE {}) \cup (IF "Reload" \in Kinds THEN reload ELSE {}) \cup (IF "Conn" \in Kinds THEN conn ELSE {})
 
 \* what clients would observe according to the model
 ObsOf(S, a, r) ==
   LET isPub == a.a = "Pub" /\ r.out.code = 202 IN
   [code |-> r.out.code,
-   nack |-> IF a.a \in {"Note", "Unload", "Reload"} THEN 0 ELSE 1,
+   nack |-> IF a.a \in {"Note", "Unload", "Reload", "Disconnect", "Connect"} THEN 0 ELSE 1,
    data |-> IF isPub THEN {[s |-> x, seq |-> r.out.seq, from |-> SessUser[a.s], content |-> a.c, topic |-> a.t, aschan |-> AttChan(S.cache[a.t], x)] : x \in r.out.dataTo} ELSE {},
    ndata |-> [x \in Sessions |-> IF isPub /\ x \in r.out.dataTo THEN 1 ELSE 0],
    push |-> IF isPub THEN {r.out.pushTo} ELSE {},
